@@ -13,8 +13,8 @@ Hypotheses that are *not* decoration but delimit where the code as it is satisfi
 * `WfCfg c`   – every name of the expression is watched (always true without `watch=`), names have ≤ 4 parts;
 * `Primed`    – every entity the expression mentions has been notified once or does not exist (`C04_*_cex_burst`
                 shows the race that happens otherwise – both subsystems);
-* `NoExprOK`  – new subsystem only: a decorator without expression reacts to its any-change forms only
-                (`C04_new_cex_noexpr` shows what happens otherwise).
+The new subsystem's former side condition `NoExprOK` is gone since fix `5a43b84` (`C04_new_regress_noexpr` keeps the
+pre-fix behaviour on record as a theorem about `New.handlePreFix`).
 Settled schedules (`settled`) need no priming.
 -/
 namespace PsModel.C04
@@ -64,21 +64,21 @@ theorem C04_legacy_quiescent (cfgs : List STCfg) (i : Nat) (c : STCfg) (hi : cfg
   simp only [hq, pendRuns, List.filterMap_nil, List.append_nil] at this
   exact this
 
-/-- **New subsystem, all interleavings** – on the fragment `NoExprOK` (see `C04_new_cex_noexpr`). -/
-theorem C04_new_partial (cfgs : List STCfg) (i : Nat) (c : STCfg) (hi : cfgs[i]? = some c) (wf : WfCfg c)
-    (hne : NoExprOK c) (hub : Hub) (hg : Good cfgs hub) (hp : Primed c hub) (steps : List Step) :
+/-- **New subsystem, all interleavings** (code after fix `5a43b84`): the same full statement as for legacy. -/
+theorem C04_new (cfgs : List STCfg) (i : Nat) (c : STCfg) (hi : cfgs[i]? = some c) (wf : WfCfg c)
+    (hub : Hub) (hg : Good cfgs hub) (hp : Primed c hub) (steps : List Step) :
     let s := exec New.handle cfgs (start hub) steps
     runsOf i s.log ++ pendRuns New.handle c (s.ts i).q = stRuns c hub.live (opsOf steps) := by
   have inv0 : Inv New.handle cfgs i c (start hub) [] [] :=
     ⟨hg, hp, by intro m hm; simp [start] at hm, by simp [start, runsOf, pendRuns], by simp [start, pendEvals]⟩
-  have := (inv_exec hi (new_handlerOK cfgs c wf hne) wf steps _ _ _ inv0).runs
+  have := (inv_exec hi (new_handlerOK cfgs c wf) wf steps _ _ _ inv0).runs
   simpa [start] using this
 
-theorem C04_new_partial_quiescent (cfgs : List STCfg) (i : Nat) (c : STCfg) (hi : cfgs[i]? = some c) (wf : WfCfg c)
-    (hne : NoExprOK c) (hub : Hub) (hg : Good cfgs hub) (hp : Primed c hub) (steps : List Step)
+theorem C04_new_quiescent (cfgs : List STCfg) (i : Nat) (c : STCfg) (hi : cfgs[i]? = some c) (wf : WfCfg c)
+    (hub : Hub) (hg : Good cfgs hub) (hp : Primed c hub) (steps : List Step)
     (hq : ((exec New.handle cfgs (start hub) steps).ts i).q = []) :
     runsOf i (exec New.handle cfgs (start hub) steps).log = stRuns c hub.live (opsOf steps) := by
-  have := C04_new_partial cfgs i c hi wf hne hub hg hp steps
+  have := C04_new cfgs i c hi wf hub hg hp steps
   simp only [hq, pendRuns, List.filterMap_nil, List.append_nil] at this
   exact this
 
@@ -89,25 +89,25 @@ theorem C04_legacy_settled (cfgs : List STCfg) (i : Nat) (c : STCfg) (hi : cfgs[
   have := (settled_exec hi (legacy_handlerSettledOK cfgs c wf) ops (start hub) hg rfl).1
   simpa [start, runsOf] using this
 
-/-- **Settled histories, new subsystem** (fragment `NoExprOK`). -/
-theorem C04_new_settled_partial (cfgs : List STCfg) (i : Nat) (c : STCfg) (hi : cfgs[i]? = some c) (wf : WfCfg c)
-    (hne : NoExprOK c) (hub : Hub) (hg : Good cfgs hub) (ops : List Op) :
+/-- **Settled histories, new subsystem.** -/
+theorem C04_new_settled (cfgs : List STCfg) (i : Nat) (c : STCfg) (hi : cfgs[i]? = some c) (wf : WfCfg c)
+    (hub : Hub) (hg : Good cfgs hub) (ops : List Op) :
     runsOf i (exec New.handle cfgs (start hub) (settled cfgs.length ops)).log = stRuns c hub.live ops := by
-  have := (settled_exec hi (new_handlerSettledOK cfgs c wf hne) ops (start hub) hg rfl).1
+  have := (settled_exec hi (new_handlerSettledOK cfgs c wf) ops (start hub) hg rfl).1
   simpa [start, runsOf] using this
 
 /-- **No other evaluations** (both subsystems, all interleavings): the expression is evaluated exactly for the watched
 changes that do not already match an any-change form, on the spec environment – so never for an unwatched entity and
 never for an attribute-only update of a value-watched entity (next two theorems spell these out). -/
 theorem C04_no_other (h : Handler) (hh : h = Legacy.handle ∨ h = New.handle) (cfgs : List STCfg) (i : Nat) (c : STCfg)
-    (hi : cfgs[i]? = some c) (wf : WfCfg c) (hne : NoExprOK c) (hub : Hub) (hg : Good cfgs hub) (hp : Primed c hub)
+    (hi : cfgs[i]? = some c) (wf : WfCfg c) (hub : Hub) (hg : Good cfgs hub) (hp : Primed c hub)
     (steps : List Step) :
     let s := exec h cfgs (start hub) steps
     (s.ts i).evals ++ pendEvals h c (s.ts i).q = stEvals c hub.live (opsOf steps) := by
   have hok : HandlerOK h cfgs c := by
     rcases hh with rfl | rfl
     · exact legacy_handlerOK cfgs c wf
-    · exact new_handlerOK cfgs c wf hne
+    · exact new_handlerOK cfgs c wf
   have inv0 : Inv h cfgs i c (start hub) [] [] :=
     ⟨hg, hp, by intro m hm; simp [start] at hm, by simp [start, runsOf, pendRuns], by simp [start, pendEvals]⟩
   have := (inv_exec hi hok wf steps _ _ _ inv0).evals
@@ -149,12 +149,12 @@ theorem C04_attr_only_no_eval (c : STCfg) (live : Store) (m : Msg)
     · simp [changes, he]
   constructor
   · simp [Legacy.handle, identAny_eq, identChanged_eq, hany', hchg]
-  · simp [New.handle, identAny_eq, identChanged_eq, hany', hchg]
+  · simp [New.handle, New.handleF, identAny_eq, identChanged_eq, hany', hchg]
 
 /-- **Several decorators on one function** (both subsystems, all interleavings): each decorator is its own trigger
 (own queue, own loop); the function's runs are the runs of its decorators, and projecting the function-level sequence
 on one decorator gives that decorator's run sequence – so the function-level sequence is an interleaving of the
-per-decorator spec sequences (each in event order, `C04_legacy` / `C04_new_partial`). -/
+per-decorator spec sequences (each in event order, `C04_legacy` / `C04_new`). -/
 theorem C04_multi (cfgs : List STCfg) (i : Nat) (c : STCfg) (hi : cfgs[i]? = some c) (log : List (Nat × Run)) :
     ((log.filter (ofFunc cfgs c.func)).filter (fun p => p.1 == i)).map (·.2) = runsOf i log := by
   unfold runsOf
@@ -180,13 +180,13 @@ theorem C04_multi_settled_legacy (cfgs : List STCfg) (hwf : ∀ c ∈ cfgs, WfCf
   unfold funcRuns Spec.funcRuns
   rw [show (exec Legacy.handle cfgs (start hub) (settled cfgs.length ops)).log = Spec.log cfgs hub.live ops from this]
 
-/-- **Several decorators on one function, settled histories (new subsystem)** – on the fragment `NoExprOK`. -/
-theorem C04_multi_settled_new_partial (cfgs : List STCfg) (hwf : ∀ c ∈ cfgs, WfCfg c) (hne : ∀ c ∈ cfgs, NoExprOK c)
+/-- **Several decorators on one function, settled histories (new subsystem).** -/
+theorem C04_multi_settled_new (cfgs : List STCfg) (hwf : ∀ c ∈ cfgs, WfCfg c)
     (hub : Hub) (hg : Good cfgs hub) (ops : List Op) (f : Nat) :
     funcRuns cfgs f (exec New.handle cfgs (start hub) (settled cfgs.length ops)).log =
       Spec.funcRuns cfgs f hub.live ops := by
   have hok : AllSettledOK New.handle cfgs :=
-    fun j c hc => new_handlerSettledOK cfgs c (hwf c (List.mem_of_getElem? hc)) (hne c (List.mem_of_getElem? hc))
+    fun j c hc => new_handlerSettledOK cfgs c (hwf c (List.mem_of_getElem? hc))
   have := settled_log hok ops (start hub) hg (fun _ => rfl)
   simp only [start, List.nil_append] at this
   unfold funcRuns Spec.funcRuns
@@ -226,14 +226,16 @@ example :
     (runsOf 0 (exec Legacy.handle [cexCfg] (start ⟨[("pyscript.b", sv "0")], []⟩)
       (settled 1 (opsOf cexBurst))).log).length = 1 := by decide
 
-/-- `@state_trigger("pyscript.a", watch=["pyscript.a", "pyscript.b"])`: no expression, `pyscript.b` watched but not an
-any-change form.  A change of `pyscript.b` runs the function in the NEW subsystem (`_is_trig_ok` returns `True`
-without expression); the legacy loop and the spec do not. -/
+/-- regression (fixed by `5a43b84`): `@state_trigger("pyscript.a", watch=["pyscript.a", "pyscript.b"])` – no
+expression, `pyscript.b` watched but not an any-change form.  BEFORE the fix a change of `pyscript.b` ran the function
+in the new subsystem (`_is_trig_ok` returned `True` without expression, `New.handlePreFix`); the code as it is now,
+the legacy loop and the spec do not. -/
 def cexNoExpr : STCfg := ⟨none, [], [nA], some [nA, nB], [], 0⟩
 
-theorem C04_new_cex_noexpr :
+theorem C04_new_regress_noexpr :
     let steps : List Step := [.op ⟨"pyscript.b", sv "5", 1⟩, .deq 0]
-    (runsOf 0 (exec New.handle [cexNoExpr] (start ⟨[], []⟩) steps).log).length = 1 ∧
+    (runsOf 0 (exec New.handlePreFix [cexNoExpr] (start ⟨[], []⟩) steps).log).length = 1 ∧
+      runsOf 0 (exec New.handle [cexNoExpr] (start ⟨[], []⟩) steps).log = [] ∧
       runsOf 0 (exec Legacy.handle [cexNoExpr] (start ⟨[], []⟩) steps).log = [] ∧
       stRuns cexNoExpr [] (opsOf steps) = [] := by
   decide
@@ -265,14 +267,13 @@ theorem C04_cex_multi_burst_order :
   decide
 
 /-- non-vacuity of the hypotheses of `C04_legacy`: a fresh start where the expression's entities do not exist yet -/
-example : Good [cexCfg] ⟨[], []⟩ ∧ Primed cexCfg ⟨[], []⟩ ∧ WfCfg cexCfg ∧ NoExprOK cexCfg := by
-  refine ⟨?_, ?_, ⟨?_, ?_⟩, ?_⟩
+example : Good [cexCfg] ⟨[], []⟩ ∧ Primed cexCfg ⟨[], []⟩ ∧ WfCfg cexCfg := by
+  refine ⟨?_, ?_, ⟨?_, ?_⟩⟩
   · intro e v h; simp at h
   · intro n _ _; right; rfl
   · intro n hn; simpa [STCfg.ident, cexCfg] using hn
   · intro n hn
     simp only [cexCfg, List.mem_cons, List.not_mem_nil, or_false] at hn
     rcases hn with rfl | rfl <;> decide
-  · intro h; simp [cexCfg] at h
 
 end PsModel.C04
